@@ -125,6 +125,8 @@ def handle (args : List String) (obs : String) : Option Reply := do
   let segs := obs.splitOn " | "
   let left := segs.getD 0 ""
   let flags := segs.getD 1 ""
+  if left.startsWith "crash" then
+    return { model := "terminates", verdict := bad s!"[C06][C07] the pool crashed or let a panic escape ({left}) during this broadcast history: a call that panics must leave an empty entry, and nothing may touch a broadcast's state after it returned", tag := "crash" }
   if left.startsWith "hang" then
     return { model := "terminates", verdict := bad "[C07] the broadcast history did not run to completion (deadlock or lost wake-up)", tag := "hang" }
   let lw := words left
